@@ -8,8 +8,9 @@ focus=None: push/top/pop only (C10), all capacities/factors; "growth": push-domi
 capacities; "reject": empty pops/tops and invalid capacities; "fault": pushes that grow;
 "all": everything, including fail= and destroy_cb and pop with a NULL out pointer.
 
-Excluded from every stream (library finding, corpus/pqueue/defect_capacity_overflow.ops): capacities
-whose byte size `capacity * sizeof(void*)` overflows size_t yet pass the constructor's check.
+The "reject" focus probes capacities 0, 2^61-1 (accepted by the checks, refused by the harness
+allocator as a request above 2^40 bytes), 2^61, 2^62, 2^63 and SIZE_MAX (rejected: the byte size
+capacity * sizeof(void*) would wrap; corpus/pqueue/capacity_byte_overflow.ops).
 """
 import itertools
 
@@ -56,8 +57,8 @@ class PqueueGen:
         out.append(["new_default", "push 4", "push 9", "top", "pop", "pop", "pop", "destroy"])
         if focus in ("reject", "all"):
             out.append(["new cap=0 exp=2", "destroy"])
-            out.append([f"new cap={2**63} exp=2", "destroy"])
-            out.append([f"new cap={2**64 - 1} exp=2", "destroy"])
+            for cap in (2**61 - 1, 2**61, 2**62, 2**63, 2**64 - 1):
+                out.append([f"new cap={cap} exp=2", "push 1", "destroy"])
             out.append(["new cap=4 exp=2", "pop", "top", "pop null=1", "push 1", "pop null=1", "pop", "destroy"])
         if focus in ("fault", "all"):
             out.append(["new cap=1 exp=2 fail=1", "destroy"])
@@ -77,7 +78,7 @@ class PqueueGen:
                 cap = rng.choice([1, 2, 3])
             ops = [f"new cap={cap} exp={exp} cmp={mode}"]
             if focus == "reject" and rng.random() < 0.1:
-                ops = [f"new cap={rng.choice([0, 2**63, 2**64 - 1])} exp={exp} cmp={mode}"]
+                ops = [f"new cap={rng.choice([0, 2**61 - 1, 2**61, 2**62, 2**63, 2**64 - 1])} exp={exp} cmp={mode}"]
             length = rng.randint(1, 70)
             p_push = rng.choice([0.4, 0.55, 0.7, 0.9])
             if focus == "growth":
